@@ -360,6 +360,116 @@ func (g *gen) rejectedInputRounds(w *world) {
 	}
 }
 
+
+// C08 / C18: the texts of a conversation that has ended are neither kept nor sent again in the next
+// one - whether it was ended here, by the peer, or both, with or without an unanswered error report
+func (g *gen) closedSessionText(w *world) {
+	w.parties = map[string]*party{}
+	w.dead = false
+	version := 2 + g.r.Intn(2)
+	pol := 2
+	if version == 3 {
+		pol = 4
+	}
+	req := 0
+	if g.r.Intn(2) == 0 {
+		req = 8
+	}
+	a := w.newParty(partyCfg{policies: pol | req, keyIdx: 0, errh: true})
+	b := w.newParty(partyCfg{policies: pol, keyIdx: 1, errh: true})
+	l := &link{w: w, a: a, b: b}
+	l.enqueue(b, []otr3.ValidMessage{w.query(b)})
+	l.settle(40)
+	if !a.c.IsEncrypted() || !b.c.IsEncrypted() || w.dead {
+		return
+	}
+	old := g.cleanText()
+	ts, _ := w.send(a, old)
+	l.enqueue(a, ts)
+	l.settle(10)
+	reported := g.r.Intn(2) == 0
+	if reported { // the peer says it could not read it (nothing is resent unless a new exchange follows)
+		_, back, _, _ := w.recv(a, []byte("?OTR Error: unreadable"))
+		l.enqueue(a, back)
+		l.settle(10)
+	}
+	how := g.r.Intn(3)
+	if how != 0 { // the peer ends the conversation
+		ts, _ = w.end(b)
+		l.enqueue(b, ts)
+		l.settle(10)
+	}
+	if how != 1 { // and / or we do
+		ts, _ = w.end(a)
+		l.enqueue(a, ts)
+		l.settle(10)
+	} else {
+		ts, _ = w.end(a) // after the peer's disconnect the user has to end it here too
+		l.enqueue(a, ts)
+		l.settle(10)
+	}
+	olog.ok("C08")
+	desc := fmt.Sprintf("OTRv%d, requireEncryption=%v, error reported=%v, ended by %s", version, req != 0, reported, []string{"us", "the peer, then us", "the peer and us"}[how])
+	hits, _ := otr3.VerifScan(a.c, [][]byte{old})
+	if len(hits) > 0 {
+		olog.viol("C08", "text-retained-after-end", fmt.Sprintf("%s: after End() the last text of the conversation is still reachable at %s", desc, hits[0].Path))
+	}
+	// the next conversation
+	w.tick(61)
+	before := len(b.received)
+	if req != 0 {
+		ts, _ = w.send(a, g.cleanText())
+		l.enqueue(a, ts)
+	} else {
+		l.enqueue(b, []otr3.ValidMessage{w.query(b)})
+	}
+	l.settle(60)
+	for _, p := range b.received[before:] {
+		if bytes.Contains(p, old) {
+			olog.viol("C08", "closed-session-text-retransmitted", fmt.Sprintf("%s: the next conversation delivers %q to the peer again", desc, p))
+		}
+	}
+}
+
+
+// C19 under repeated re-keying: one side only receives; the peer starts a new key exchange after every
+// message (here: because it gets a whitespace-tagged plaintext each time, which needs no waiting time).
+// What the receiving side keeps for disclosure must not grow with the number of exchanges.
+func (g *gen) repeatedRekeying(w *world) {
+	w.parties = map[string]*party{}
+	w.dead = false
+	version := 2 + g.r.Intn(2)
+	pol := 2
+	if version == 3 {
+		pol = 4
+	}
+	a := w.newParty(partyCfg{policies: pol, keyIdx: 0, errh: true})
+	b := w.newParty(partyCfg{policies: pol | 32, keyIdx: 1, errh: true})
+	l := &link{w: w, a: a, b: b}
+	l.enqueue(a, []otr3.ValidMessage{w.query(a)})
+	l.settle(40)
+	tag := " \t  \t\t\t\t \t \t \t  " + map[int]string{2: "  \t\t  \t ", 3: "  \t\t  \t\t"}[version]
+	var sizes []int
+	for cycle := 1; cycle <= 12 && !w.dead; cycle++ {
+		if !a.c.IsEncrypted() || !b.c.IsEncrypted() {
+			return
+		}
+		ts, _ := w.send(b, g.cleanText())
+		l.enqueue(b, ts)
+		l.settle(10)
+		_, ts2, _, _ := w.recv(b, []byte("hi"+tag)) // b starts a new exchange
+		l.enqueue(b, ts2)
+		l.settle(30)
+		sn := otr3.VerifSnapshot(a.c)
+		sizes = append(sizes, sn.OldMACKeys)
+		olog.ok("C19")
+		if sn.OldMACKeys > 8 {
+			olog.viol("C19", "reveal-queue-grows-with-rekeying", fmt.Sprintf("OTRv%d: after %d rounds of (one message received, key exchange repeated by the peer) %d MAC keys wait to be revealed: %v", version, cycle, sn.OldMACKeys, sizes))
+			return
+		}
+	}
+}
+
 func init() {
 	profiles["mem"] = func(seed int64, n int, out *emitter, extra map[string]interface{}) map[string]int {
 		g := &gen{r: rand.New(rand.NewSource(seed)), out: out, dist: map[string]int{}}
@@ -370,6 +480,12 @@ func init() {
 			if i%4 == 0 {
 				g.resendRounds(w)
 				g.rejectedInputRounds(w)
+			}
+			if i%4 == 1 {
+				g.repeatedRekeying(w)
+			}
+			if i%2 == 0 {
+				g.closedSessionText(w)
 			}
 		}
 		extra["panics"] = panicCount
